@@ -75,6 +75,7 @@ def errName : Err → String
   | .noFile => "no_file" | .noPart => "no_part" | .multipartShape => "multipart" | .notFound => "not_found"
   | .ambiguous => "ambiguous" | .conflict => "conflict" | .missingParam => "missing_param" | .badType => "bad_type"
   | .missingInput => "missing_input" | .dupInput => "dup_input" | .tooDeep => "cyclic_or_too_deep" | .unsupported => "unsupported"
+  | .dupChain => "dup_chain"
 
 def optStr : Option Str → Json
   | none => Json.null
@@ -125,6 +126,12 @@ def handle (j : Json) : R Json := do
     match TCV.BuildNM.build fs cfs classes main ns (← optCtx j "ctx") [] 0 0 fuel with
     | .error e => pure (Json.mkObj [("error", Json.str (errName e))])
     | .ok c => pure (Json.mkObj [("ok", Json.arr (c.tasks.map taskNJson).toArray)])
+  | "multi_nm" =>
+    let mains ← (← arr j "mains").toList.mapM (fun m => do
+      pure (chars (← str m "main"), ← optCtx m "ctx"))
+    match TCV.BuildNM.buildMulti fs cfs classes mains fuel with
+    | .error e => pure (Json.mkObj [("error", Json.str (errName e))])
+    | .ok cs => pure (Json.mkObj [("ok", Json.arr (cs.map (fun c => Json.arr (c.tasks.map taskNJson).toArray)).toArray)])
   | "multi" =>
     let mains ← (← arr j "mains").toList.mapM (fun m => do
       pure (chars (← str m "main"), ← optCtx m "ctx"))
